@@ -124,11 +124,15 @@ func execTaskAt(p TaskProg, tag string) (rec []string) {
 		}
 		rec = append(rec, "op:"+op.Name+":"+canon.Hash(s))
 	}
-	for _, wf := range p.Writers {
-		w := simio.NewWriter(simio.WritePlan{})
+	for wi, wf := range p.Writers {
+		wp := simio.WritePlan{}
+		if wi%2 == 1 {
+			wp.Medium = "rich" // every second destination also offers io.StringWriter / io.ReaderFrom
+		}
+		w := simio.NewWriter(wp)
 		w.Hook = hook
 		before := canon.Hash(s)
-		err, pn := api.Write(wf, s, w)
+		err, pn := api.Write(wf, s, w.Wrap())
 		switch {
 		case pn != "":
 			rec = append(rec, "write:"+wf+":panic")
